@@ -596,20 +596,30 @@ def scalar_replace(fn: ast.AST, module) -> bool:
         elif isinstance(n, ast.arg):
             binds.setdefault(n.arg, []).append(None)
     vals = {}
+
+    def ctor_fields(call):
+        if not (isinstance(call, ast.Call) and isinstance(call.func, ast.Name) and call.func.id in groups
+                and not any(isinstance(a, ast.Starred) for a in call.args) and not any(k.arg is None for k in call.keywords)):
+            return None
+        flds = groups[call.func.id]
+        d = {}
+        for (fname, default), a in zip(flds, call.args):
+            d[fname] = a
+        for k in call.keywords:
+            d[k.arg] = k.value
+        for fname, default in flds:
+            if fname not in d and default is not None:
+                d[fname] = default
+        return (d, [fname for fname, _ in flds]) if all(fname in d for fname, _ in flds) else None
+
+    per_site = {}  # id(call) -> (field values, order): a local may be built in several branches
     for nm, vs in binds.items():
-        if len(vs) == 1 and isinstance(vs[0], ast.Call) and isinstance(vs[0].func, ast.Name) and vs[0].func.id in groups \
-                and not any(isinstance(a, ast.Starred) for a in vs[0].args) and not any(k.arg is None for k in vs[0].keywords):
-            flds = groups[vs[0].func.id]
-            d = {}
-            for (fname, default), a in zip(flds, vs[0].args):
-                d[fname] = a
-            for k in vs[0].keywords:
-                d[k.arg] = k.value
-            for fname, default in flds:
-                if fname not in d and default is not None:
-                    d[fname] = default
-            if all(fname in d for fname, _ in flds):
-                vals[nm] = (d, [fname for fname, _ in flds])
+        if vs and all(v is not None for v in vs) and len({v.func.id for v in vs if isinstance(v, ast.Call) and isinstance(v.func, ast.Name)}) == 1:
+            cf = [ctor_fields(v) for v in vs]
+            if all(c is not None for c in cf):
+                vals[nm] = cf[0]
+                for v, c in zip(vs, cf):
+                    per_site[id(v)] = c
     if not vals:
         return False
     changed = False
@@ -647,8 +657,8 @@ def scalar_replace(fn: ast.AST, module) -> bool:
             # the defining assignment: one local per field, then the group built from those locals
             if len(s.targets) == 1 and isinstance(s.targets[0], ast.Name) and s.targets[0].id in vals and isinstance(s.value, ast.Call):
                 g = s.targets[0].id
-                d, order = vals[g]
-                out = [ast.copy_location(ast.Assign([ast.Name(fld_name(g, k), ast.Store())], d[k]), s) for k in order]
+                d, order = per_site.get(id(s.value), vals[g])
+                out = [ast.copy_location(ast.Assign([ast.Name(fld_name(g, k), ast.Store())], copy.deepcopy(d[k])), s) for k in order]
                 s.value = ast.copy_location(ast.Call(s.value.func, [ast.Name(fld_name(g, k), ast.Load()) for k in order], []), s.value)
                 changed = True
                 return out + [s]
